@@ -1,7 +1,7 @@
 (* C19 — Production weights are normalised per non-terminal, stable and respected.
    Only statements, each closed by [exact] of a lemma proved in Proofs/WeightProofs.v,
    Proofs/RegProofs.v or Proofs/TapeProofs.v; Print Assumptions; non-vacuity examples. *)
-From GE Require Import Base Tape Grammar RegProofs WeightProofs TapeProofs.
+From GE Require Import Base Tape Grammar WellTyped Synth RegProofs WeightProofs TapeProofs WeightChoice.
 Open Scope Q_scope.
 
 (* after extract_grammar on classes of which some registered or considered one carries a weight:
@@ -62,6 +62,34 @@ Theorem C19_zero_weight_never_chosen : forall (A : Type) s (choices : list A) ac
               (forall j b, (j < i)%nat -> nth_error accs j = Some b -> (b < a)%Z) /\ (0 < a)%Z.
 Proof. exact @choice_weighted_positive. Qed.
 Print Assumptions C19_zero_weight_never_chosen.
+
+(* ... at the level of the weights themselves: with non-negative weights of positive integer total, the option that
+   choice_weighted returns has a strictly positive weight *)
+Theorem C19_chosen_weight_positive : forall (A : Type) s (choices : list A) ws c s' total,
+  choice_weighted s choices ws = Ok (c, s') -> length choices = length ws ->
+  (forall q, In q ws -> (0 <= q)%Q) ->
+  last_error (acc_weights ws) = Some total -> (0 < total)%Z ->
+  exists i q, nth_error choices i = Some c /\ nth_error ws i = Some q /\ (0 < q)%Q.
+Proof. exact @choice_weighted_pick_positive. Qed.
+Print Assumptions C19_chosen_weight_positive.
+
+(* ProgressivelyTerminalDecider (after the repair of F42): whatever the grammar, context and source state, the
+   production it returns does not have declared weight zero whenever the weights it hands to choice_weighted are
+   non-negative with a positive integer total; and when its depth heuristic is zero for every alternative, the weights
+   it hands over are exactly the production weights (before the repair the first alternative was returned) *)
+Theorem C19_progressive_decider_respects_weights : forall g key alts ctx st x st',
+  choose g DProg key alts ctx st = (Ok x, st') ->
+  exists target ws, prog_final_weights g target ctx alts = Ok ws /\
+    ((forall q, In q ws -> (0 <= q)%Q) -> forall total, last_error (acc_weights ws) = Some total -> (0 < total)%Z ->
+     ~ (prod_weight g x == 0)%Q).
+Proof. exact prog_zero_weight_never. Qed.
+Print Assumptions C19_progressive_decider_respects_weights.
+
+Theorem C19_zero_heuristic_falls_back_to_production_weights : forall g target ctx alts ws0,
+  prog_weights g target ctx alts = Ok ws0 -> forallb (fun q => Qeq_bool q 0) ws0 = true ->
+  prog_final_weights g target ctx alts = Ok (map (prod_weight g) alts).
+Proof. exact prog_fallback_is_production_weights. Qed.
+Print Assumptions C19_zero_heuristic_falls_back_to_production_weights.
 
 (* ---- non-vacuity: a hierarchy A -> B<2> | C | D<0>, E(A) abstract -> F<3> | G, whose extraction
    succeeds, is weighted, and has two rules ---- *)
